@@ -892,8 +892,242 @@ fn logdomain_unjudged(rng: &mut Rng, rep: &mut Report, n: usize) {
     }
 }
 
+// ---------------------------------------------------------------------------------------------
+// reductions with infinite entries, overflowing partial sums / products and NaN entries
+
+const NONFINITE_CLASSES: [&str; 6] = ["pos-inf-entries", "neg-inf-entries", "both-inf-signs", "finite-overflowing", "near-limit-order-dependent(unjudged)", "nan-entries"];
+const NONFINITE_PLACEMENTS: [&str; 5] = ["leading", "trailing", "interior", "scattered", "every-position"];
+
+#[derive(Clone, Copy, PartialEq)]
+enum Ext {
+    PosInf,
+    NegInf,
+    Nan,
+    /// not judged (order dependent, or the unmodified library already deviates: evidence only)
+    Open,
+}
+
+fn ext_name(r: &Result<f64, String>) -> &'static str {
+    match r {
+        Err(_) => "panic",
+        Ok(g) if g.is_nan() => "nan",
+        Ok(g) if *g == f64::NEG_INFINITY => "neg_inf",
+        Ok(g) if *g == f64::INFINITY => "pos_inf",
+        Ok(_) => "finite",
+    }
+}
+
+/// Positions of the k special entries in a vector of length n.
+fn special_positions(rng: &mut Rng, n: usize, placement: usize) -> Vec<usize> {
+    let several = if n >= 3 { rng.usize(1, 3.min(n - 1)) } else { 1 };
+    match placement {
+        0 => (0..several).collect(),
+        1 => (n - several..n).collect(),
+        2 => {
+            if n >= 3 {
+                vec![rng.usize(1, n - 2)]
+            } else {
+                vec![n / 2]
+            }
+        }
+        3 => {
+            let k = if n >= 2 { rng.usize(1, (n - 1).min(6)) } else { 1 };
+            rng.perm(n)[..k].to_vec()
+        }
+        _ => (0..n).collect(),
+    }
+}
+
+/// sum, dot, prod, norm, inf_norm (free functions and Vector / Matrix methods) on vectors whose
+/// definition is ±inf or NaN by IEEE arithmetic in every order of evaluation: +inf / −inf entries
+/// among moderate finite ones, infinities of both signs, same-sign finite entries near f64::MAX
+/// whose sum / product overflows, NaN entries. Judged on the class of the result only.
+fn nonfinite_reductions(rng: &mut Rng, rep: &mut Report, n: usize, class: usize, placement: usize) {
+    let inf = f64::INFINITY;
+    // finite background: non-zero, moderate, mixed signs (no zero: inf·0 is NaN by definition)
+    let mut x: Vec<f64> = (0..n).map(|_| rng.range(0.5, 2.0) * 10f64.powi(rng.int(-3, 3) as i32) * if rng.bool() { -1.0 } else { 1.0 }).collect();
+    // second operand of the dot product: strictly positive, O(1)
+    let y: Vec<f64> = (0..n).map(|_| rng.range(1.0, 2.0)).collect();
+    let mut pos = special_positions(rng, n, placement);
+    pos.sort();
+    pos.dedup();
+    let huge = |rng: &mut Rng| rng.range(1.0, 1.7) * 1e308;
+    let (esum, edot_xy, edot_xx, eprod_sign_known): (Ext, Ext, Ext, bool);
+    match class {
+        0 | 1 => {
+            let v = if class == 0 { inf } else { -inf };
+            for &i in &pos {
+                x[i] = v;
+            }
+            esum = if class == 0 { Ext::PosInf } else { Ext::NegInf };
+            edot_xy = esum;
+            edot_xx = Ext::PosInf;
+            eprod_sign_known = true;
+        }
+        2 => {
+            // both signs need two positions
+            if pos.len() < 2 {
+                let extra = (pos[0] + 1 + rng.usize(0, n.saturating_sub(2))) % n;
+                if extra != pos[0] {
+                    pos.push(extra);
+                }
+            }
+            if pos.len() < 2 {
+                return;
+            }
+            for (j, &i) in pos.iter().enumerate() {
+                x[i] = if j % 2 == 0 { inf } else { -inf };
+            }
+            if rng.bool() {
+                for &i in &pos {
+                    x[i] = -x[i];
+                }
+            }
+            esum = Ext::Nan;
+            edot_xy = Ext::Nan;
+            edot_xx = Ext::PosInf;
+            eprod_sign_known = true;
+        }
+        3 => {
+            // same-sign entries of magnitude 1e308..1.7e308: two of them already exceed f64::MAX
+            if pos.len() < 2 {
+                let extra = (pos[0] + 1 + rng.usize(0, n.saturating_sub(2))) % n;
+                if extra != pos[0] {
+                    pos.push(extra);
+                }
+            }
+            if pos.len() < 2 {
+                return;
+            }
+            let sg = if rng.bool() { 1.0 } else { -1.0 };
+            for &i in &pos {
+                x[i] = sg * huge(rng);
+            }
+            esum = if sg > 0.0 { Ext::PosInf } else { Ext::NegInf };
+            edot_xy = esum;
+            edot_xx = Ext::PosInf;
+            eprod_sign_known = true;
+        }
+        4 => {
+            // the exact sum is representable, some partial sums are not: nothing is judged
+            if n < 3 {
+                return;
+            }
+            let p3 = &rng.perm(n)[..3];
+            let h = huge(rng);
+            x[p3[0]] = h;
+            x[p3[1]] = h;
+            x[p3[2]] = -h;
+            esum = Ext::Open;
+            edot_xy = Ext::Open;
+            edot_xx = Ext::PosInf;
+            eprod_sign_known = false;
+        }
+        _ => {
+            for &i in &pos {
+                x[i] = f64::NAN;
+            }
+            esum = Ext::Nan;
+            edot_xy = Ext::Nan;
+            edot_xx = Ext::Nan;
+            eprod_sign_known = false;
+        }
+    }
+    let cname = NONFINITE_CLASSES[class];
+    let regime = format!("reduce:nonfinite:{}", cname);
+    rep.case(&regime);
+    rep.seen(&format!("reduce:nonfinite:placement:{}", NONFINITE_PLACEMENTS[placement]), 1);
+    rep.seen(&format!("reduce:nonfinite:{}:{}", cname, len_class(n)), 1);
+    rep.distinct(Hasher::new().s("reduce-nonfinite").u(class as u64).fs(&x).finish(), true);
+    let inputs = || json!({"x": jf(&x), "y(dot)": jf(&y), "class": cname, "placement": NONFINITE_PLACEMENTS[placement]});
+    rep.sample(|| json!({"family": "reduce-nonfinite", "class": cname, "placement": NONFINITE_PLACEMENTS[placement], "len": n, "x": jf(&x[..n.min(10)])}));
+    let v = Vector::new(x.clone());
+    let shape = shape_for(rng, n).unwrap();
+    let m = Matrix::new(x.clone(), shape.0 as i32, shape.1 as i32);
+    let judge = |rep: &mut Report, id: &str, form: &str, got: Result<f64, String>, want: Ext| {
+        rep.note_add(&format!("evidence.nonfinite.{}.{}.{}", cname, form, ext_name(&got)), 1.0);
+        let ok = match (&got, want) {
+            (_, Ext::Open) => return,
+            (Ok(g), Ext::PosInf) => *g == f64::INFINITY,
+            (Ok(g), Ext::NegInf) => *g == f64::NEG_INFINITY,
+            (Ok(g), Ext::Nan) => g.is_nan(),
+            (Err(_), _) => false,
+        };
+        let wname = match want {
+            Ext::PosInf => "+inf",
+            Ext::NegInf => "-inf",
+            _ => "NaN",
+        };
+        rep.check(id, &regime, ok, || json!({"form": form, "observed": match &got { Ok(g) => jnum(*g), Err(e) => json!({"panic": e}) }, "expected": wname, "inputs": inputs()}));
+    };
+    // sum
+    judge(rep, "C04.sum", "sum(&[f64])", guard(|| sum(&x)), esum);
+    judge(rep, "C04.sum", "Vector::sum", guard(|| v.sum()), esum);
+    judge(rep, "C04.sum", "Matrix::sum", guard(|| m.sum()), esum);
+    // dot against a positive vector and against itself
+    judge(rep, "C04.dot", "dot(x,y)", guard(|| dot(&x, &y)), edot_xy);
+    judge(rep, "C04.dot", "dot(x,x)", guard(|| dot(&x, &x)), edot_xx);
+    // prod: every factor is non-zero, so an infinite (or overflowing) product keeps the sign of the
+    // product of the signs; a NaN factor gives NaN
+    let eprod = if class == 5 {
+        Ext::Nan
+    } else if eprod_sign_known {
+        let neg = x.iter().filter(|t| **t < 0.0).count() % 2 == 1;
+        // the finite background may shrink an overflowing product back only if it is tiny: bound it
+        let lg: f64 = x.iter().filter(|t| t.is_finite()).map(|t| t.abs().log10()).sum();
+        let lgmin: f64 = {
+            // smallest decimal exponent of any partial product of the finite factors (any order is
+            // bounded below by the sum of the negative logs)
+            x.iter().filter(|t| t.is_finite()).map(|t| t.abs().log10().min(0.0)).sum()
+        };
+        let overflow_sure = class != 3 || (lg > 330.0 && lgmin > -280.0);
+        if !overflow_sure {
+            Ext::Open
+        } else if neg {
+            Ext::NegInf
+        } else {
+            Ext::PosInf
+        }
+    } else {
+        Ext::Open
+    };
+    judge(rep, "C04.prod", "prod(&[f64])", guard(|| prod(&x)), eprod);
+    judge(rep, "C04.prod", "Vector::prod", guard(|| v.prod()), eprod);
+    judge(rep, "C04.prod", "Matrix::prod", guard(|| m.prod()), eprod);
+    // norm: sqrt of a sum of squares. An infinite entry gives +inf, a NaN entry NaN; finite entries
+    // near f64::MAX have a representable norm that sqrt(dot) cannot reach: evidence only
+    let enorm = match class {
+        0 | 1 | 2 => Ext::PosInf,
+        5 => Ext::Nan,
+        _ => Ext::Open,
+    };
+    judge(rep, "C04.norm", "norm(&[f64])", guard(|| norm(&x)), enorm);
+    judge(rep, "C04.norm", "Vector::norm", guard(|| v.norm()), enorm);
+    judge(rep, "C04.norm", "Matrix::norm", guard(|| m.norm()), enorm);
+    // infinity norm: largest absolute row sum
+    let (r, c) = shape;
+    let einf = match class {
+        0 | 1 | 2 => Ext::PosInf,
+        3 => {
+            // +inf when one row holds two of the huge entries
+            let two = (0..r).any(|i| x[i * c..(i + 1) * c].iter().filter(|t| t.abs() >= 1e308).count() >= 2);
+            if two {
+                Ext::PosInf
+            } else {
+                Ext::Open
+            }
+        }
+        // NaN entries: the library takes the largest row sum with f64::max, which skips a NaN row
+        // sum; the largest of a set that contains NaN has no mathematical definition, so the result
+        // is counted as evidence (notes evidence.nonfinite.nan-entries.*inf_norm.*) and not judged
+        _ => Ext::Open,
+    };
+    judge(rep, "C04.inf_norm", "inf_norm(&[f64], nrows)", guard(|| inf_norm(&x, r)), einf);
+    judge(rep, "C04.inf_norm", "Matrix::inf_norm", guard(|| m.inf_norm()), einf);
+}
+
 pub fn run(cfg: &Cfg, rep: &mut Report) {
-    rep.rule = "every operator impl (4 ops x {Vector,Matrix} x {owned,borrowed}^2 vec∘vec, scalar-left/right, compound assignment, Neg, matmat* fns), 29 maps, powi (8 exponents), powf (4) at every length 0..=40 (lite: 0..=17,24,33) and random lengths up to 1e4, elements pairwise distinct with ±0, ±inf, subnormals, NaN mixed in; reductions against double-double references. non-trivial = length >= 1; distinct by (container, family, impl, length); reductions additionally on sign-pattern vectors (all <= 0 / all >= 0 with exact ±0, single non-zero, negatives only, mixed) at every length 1..=40 and random lengths, and on log-domain vectors whose maximum lies in (690, 709.78) or (-745, -690) with 1..=1000 entries tied with / next to the maximum, and on log-domain vectors with −inf entries (leading / trailing / interior / scattered / all but one position) next to finite entries of every magnitude class at every length 2..=40 and random lengths".into();
+    rep.rule = "every operator impl (4 ops x {Vector,Matrix} x {owned,borrowed}^2 vec∘vec, scalar-left/right, compound assignment, Neg, matmat* fns), 29 maps, powi (8 exponents), powf (4) at every length 0..=40 (lite: 0..=17,24,33) and random lengths up to 1e4, elements pairwise distinct with ±0, ±inf, subnormals, NaN mixed in; reductions against double-double references. non-trivial = length >= 1; distinct by (container, family, impl, length); reductions additionally on sign-pattern vectors (all <= 0 / all >= 0 with exact ±0, single non-zero, negatives only, mixed) at every length 1..=40 and random lengths, and on log-domain vectors whose maximum lies in (690, 709.78) or (-745, -690) with 1..=1000 entries tied with / next to the maximum, and on log-domain vectors with −inf entries (leading / trailing / interior / scattered / all but one position) next to finite entries of every magnitude class at every length 2..=40 and random lengths; sum / dot / prod / norm / inf_norm (free functions, Vector and Matrix methods) on vectors with +inf entries, −inf entries, infinities of both signs, same-sign finite entries of magnitude 1e308..1.7e308 (overflowing sum / product), NaN entries, placed leading / trailing / interior / scattered / at every position among non-zero moderate finite entries, every length 1..=40 and random lengths up to 1e4 (regimes reduce:nonfinite:<class>)".into();
     rep.assume("powi has no IEEE definition: the runtime-exponent f64::powi (compiler-rt repeated squaring) is taken as the scalar operation; x*x and x*x*x are bit-identical to it");
     rep.assume("prod is checked on well-scaled data (no overflow/underflow) with a relative gamma_n bound; reductions of the empty slice other than sum/prod/dot/norm are outside the quantifier");
     rep.assume("Matrix shape mismatches are checked for pairs that NumPy broadcasting (C12) does not make compatible");
@@ -983,12 +1217,32 @@ pub fn run(cfg: &Cfg, rep: &mut Report) {
             let n = if i < 40 { i + 1 } else { rng.usize(41, 2000) };
             logdomain_unjudged(rng, rep, n);
         });
+        // reductions whose definition is ±inf / NaN: every length 1..=40 x class x placement, then longer
+        let (ncl, npc) = (NONFINITE_CLASSES.len(), NONFINITE_PLACEMENTS.len());
+        let nreps = cfg.pick(1, 8, 1).max(1);
+        par_cases(cfg, rep, 12, slens.len() * ncl * npc * nreps, |i, rng, rep| {
+            nonfinite_reductions(rng, rep, slens[(i / (ncl * npc)) % slens.len()], i % ncl, (i / ncl) % npc);
+        });
+        par_cases(cfg, rep, 13, cfg.pick(300, 3000, 30), |i, rng, rep| {
+            let n = if rng.chance(0.8) { rng.usize(41, 600) } else { rng.usize(601, 10_000) };
+            nonfinite_reductions(rng, rep, n, i % ncl, (i / ncl) % npc);
+        });
+        for c in NONFINITE_CLASSES {
+            rep.require(&format!("reduce:nonfinite:{}", c), 100);
+            for cl in ["len<8", "len%8=0", "len%8!=0"] {
+                rep.require(&format!("reduce:nonfinite:{}:{}", c, cl), 5);
+            }
+        }
+        for p in NONFINITE_PLACEMENTS {
+            rep.require(&format!("reduce:nonfinite:placement:{}", p), 100);
+        }
         for p in NEGINF_PLACEMENTS {
             rep.require(&format!("reduce:logdomain-neginf:{}", p), (nmg * 10) as u64);
         }
         for m in NEGINF_MAGS {
             rep.require(&format!("reduce:logdomain-neginf:finite-entries:{}", m), (npl * 10) as u64);
         }
+        rep.assume("reductions with non-finite results (regimes reduce:nonfinite:*) are judged on the class of the result only (+inf, −inf or NaN as IEEE arithmetic gives in every order of evaluation); not judged, counted as evidence under notes evidence.nonfinite.*: sums / dots whose exact value is representable while some partial sums are not (order dependent), norm and single-entry row sums of finite entries near f64::MAX (sqrt(dot) overflows although the norm is representable), inf_norm with NaN entries (f64::max skips NaN row sums)");
         rep.assume("log-domain reductions with −inf entries are judged when at least one entry is finite (exp(−inf) = 0: reference over the finite entries, full count in the mean); a vector of −inf only and vectors with +inf entries are recorded as evidence (notes evidence.logdomain.*) and not judged");
     }
     for cont in ["Vector", "Matrix"] {
